@@ -5,6 +5,7 @@
 package c20
 
 import (
+	"errors"
 	"os"
 	"path/filepath"
 	"strings"
@@ -74,15 +75,16 @@ func FullJob() sched.Job {
 var MatrixMenus = map[string]string{
 	"request_kinds": "5 negotiated response encodings {json, xml, gob, text/plain, text/html} x 6 outcome classes {ok, invalid (validation failure), declared error, undeclared error, notfound (404, the muxer's not-found handler), notallowed (405)} = 30 kinds; " +
 		"one request = generated-client steps (RequestEncoder, Doer, ResponseDecoder) -> in-memory wire (scheduling point, Request.Write, http.ReadRequest) -> generated-handler steps on the real runtime (Muxer, RequestDecoder, Vars, ValidatePattern, MergeErrors, ResponseEncoder, one ErrorEncoder closure per handler)",
-	"scenario":         "[sequential prefix: one request kind or none, run single-threaded on the mounted server before the threads start] ; 2 or 3 requests in flight, each tagged with its issuer",
-	"quick_pairs":      "no prefix; ALL 465 unordered pairs of the 30 kinds (a kind with itself included)",
-	"quick_samenc":     "prefix (e,o0) ; (e,o1) || (e,o2) for every encoding e, every prefix outcome o0, every unordered outcome pair: 5*6*21 = 630",
-	"quick_afterany":   "prefix = any of the 30 kinds ; (e1,ok) || (e2,ok) for every e1 <= e2: 30*15 = 450",
-	"quick_triples":    "3 threads, one encoding e: prefix (e,notfound) ; ok || undeclared || notfound, and no prefix ; ok || invalid || declared: 10",
-	"quick_bound":      "every schedule with <= 2 preemptions; every alternative of every sync.Pool Get (any pooled value or a fresh one) at no preemption cost",
-	"thorough_full":    "prefix in {none} + 30 kinds ; ALL 465 pairs = 14415 scenarios (contains the quick 2-thread menus), <= 2 preemptions; the quick 2-thread menus additionally <= 3 preemptions, the prefix-free pairs additionally ALL interleavings",
-	"thorough_triples": "3 threads, one encoding e, prefix in {none, (e,notfound), (e,ok)}, every outcome multiset of size 3: 5*3*56 = 840, <= 2 preemptions",
-	"oracle":           "each request's (status, headers, body modulo error id, error-handler calls, value decoded by the client) equals the same request alone on a FRESH server without prefix and without peers; happens-before races; deadlock; panic",
+	"scenario":             "[sequential prefix: one request kind or none, run single-threaded on the mounted server before the threads start] ; 2 or 3 requests in flight, each tagged with its issuer",
+	"quick_pairs":          "no prefix; ALL 465 unordered pairs of the 30 kinds (a kind with itself included)",
+	"quick_samenc":         "prefix (e,o0) ; (e,o1) || (e,o2) for every encoding e, every prefix outcome o0, every unordered outcome pair: 5*6*21 = 630",
+	"quick_afterany":       "prefix = any of the 30 kinds ; (e1,ok) || (e2,ok) for every e1 <= e2: 30*15 = 450",
+	"quick_triples":        "3 threads, one encoding e: prefix (e,notfound) ; ok || undeclared || notfound, and no prefix ; ok || invalid || declared: 10",
+	"quick_bound":          "every schedule with <= 2 preemptions; every alternative of every sync.Pool Get (any pooled value or a fresh one) at no preemption cost",
+	"thorough_quick_menus": "the quick menus again with deep hooks, <= 2 preemptions; the 465 prefix-free pairs additionally in ALL interleavings (sleep sets), which subsumes every preemption bound",
+	"thorough_full":        "prefix in {none} + 30 kinds ; ALL 465 pairs = 14415 scenarios (contains the quick 2-thread menus; the remaining 12870 run in a second worker built with the quick hooks), <= 2 preemptions",
+	"thorough_triples":     "3 threads, one encoding e, prefix in {none, (e,notfound)}, every outcome multiset of size 3: 5*2*56 = 560, <= 2 preemptions, second worker (quick hooks)",
+	"oracle":               "each request's (status, headers, body modulo error id, error-handler calls, value decoded by the client) equals the same request alone on a FRESH server without prefix and without peers; happens-before races; deadlock; panic",
 }
 
 // rowGroup aggregates the rows of the request matrix in the evidence (one row per menu slice
@@ -151,12 +153,16 @@ func Run(c *core.Ctx) {
 		}
 		fo := sched.Options{Families: []string{FullFamily}, Prefix: "full:", RowGroup: rowGroup}
 		fms, err := fb.Explore(c, fo)
-		if err != nil {
+		switch {
+		case errors.Is(err, sched.ErrNoScenario) && os.Getenv("VERIF_SCHED_ONLY") != "":
+			// a restricted development run that selects nothing of the big products
+		case err != nil:
 			c.HarnessError("C20: %v", err)
 			return
+		default:
+			fb.Feed(c, fo, fms)
+			fb.NoteInstrumentation(c, "instrumentation_full_matrix")
 		}
-		fb.Feed(c, fo, fms)
-		fb.NoteInstrumentation(c, "instrumentation_full_matrix")
 	}
 	var sigs []string
 	for _, m := range ms {
